@@ -33,14 +33,22 @@ def write_if_changed(path, text):
     return True
 
 
-def run_all():
-    """run every extractor (results cached per source-tree hash) and (re)write the Lean files"""
-    import json
+def _hash_extractors():
+    """hash of the extractor sources AS LOADED (taken at import): a process that still runs an older
+    extractor must not store its output under the key of the newer files on disk"""
     import hashlib
     hh = hashlib.sha256()
     for f in sorted(_glob.glob(os.path.join(os.path.dirname(__file__), "extract*.py"))):
         hh.update(open(f, "rb").read())
-    cache_p = os.path.join(C.CACHE, "extract-%s-%s.json" % (C.src_hash(), hh.hexdigest()[:10]))
+    return hh.hexdigest()[:10]
+
+
+
+def run_all():
+    """run every extractor (results cached per source-tree hash) and (re)write the Lean files"""
+    import json
+    import hashlib
+    cache_p = os.path.join(C.CACHE, "extract-%s-%s.json" % (C.src_hash(), _EXTRACTOR_HASH))
     cache = {}
     try:
         cache = json.load(open(cache_p))
@@ -106,3 +114,4 @@ def c_dump(program, includes=(), libs=()):
 import glob as _glob, importlib as _il  # noqa: E402
 for _f in sorted(_glob.glob(os.path.join(os.path.dirname(__file__), "extractors*.py"))):
     _il.import_module("ltv." + os.path.basename(_f)[:-3])  # registers the extractors
+_EXTRACTOR_HASH = _hash_extractors()
